@@ -23,6 +23,7 @@ RULE = (
     "of member positions; drawing with a supplied pos succeeds and node_collection offsets = [pos[n] for n in H.nodes], "
     "dyad segments = the two-node edges (multiset of endpoint pairs), patch polygons = the edges of 3..max_order+1 nodes "
     "(multiset of vertex sets; for a complex: maximal simplices of >= 3 nodes, lines = all two-node simplices). "
+    "Markers must be unmasked with finite sizes and line widths (styles incl. per-node values that are all equal); layout centres are given as list, tuple or numpy array. "
     "non-trivial = the network has an isolated node, a singleton edge or string labels, and an edge of >= 3 nodes"
 )
 BUDGET = {"quick": 1400, "thorough": 30000}
@@ -59,10 +60,10 @@ def cases(draw, tier):
     return {
         "kind": kind, "sc": sc, "n": n, "edges": edges,
         "layout": draw(st.sampled_from(["circular", "spiral", "random", "pairwise", "barycenter", "weighted_barycenter", "kamada_kawai"])),
-        "opts": {"center": draw(st.sampled_from([None, [1.0, -2.0]])), "radius": draw(st.sampled_from([None, 2.5])), "resolution": draw(st.sampled_from([0.35, 1.0])),
+        "opts": {"center": draw(st.sampled_from([None, [1.0, -2.0]])), "center_form": draw(st.sampled_from(["list", "tuple", "numpy"])), "radius": draw(st.sampled_from([None, 2.5])), "resolution": draw(st.sampled_from([0.35, 1.0])),
                  "equidistant": draw(st.booleans()), "seed": draw(st.integers(0, 99)), "k": draw(st.sampled_from([None, 0.5])), "phantom": draw(st.booleans())},
         "max_order": draw(st.sampled_from([None, None, 1, 2, 3])),
-        "style": draw(st.sampled_from(["default", "scalar", "list", "dict", "stat"])),
+        "style": draw(st.sampled_from(["default", "scalar", "list", "dict", "stat", "const-array"])),
         "fn": draw(st.sampled_from(["draw", "draw", "draw_nodes", "draw_hyperedges", "draw_simplices"])),
         "posmode": draw(st.sampled_from(["same", "same", "reversed", "extra", "line", "grid"])),
         # presentation options that must not change what is rendered where (None = leave the default)
@@ -108,7 +109,9 @@ def run_case(case, ctx):
     sc = case["sc"]
     nodes = list(H.nodes)
     mem = {e: frozenset(m) for e, m in H.edges.members(dtype=dict).items()}
-    o = case["opts"]
+    o = dict(case["opts"])
+    if o.get("center") is not None:  # "array-like or None": a list, a tuple or a numpy array
+        o["center"] = {"list": list, "tuple": tuple, "numpy": np.array}[o.get("center_form", "list")](o["center"])
     try:
         lays = {
             "circular": lambda: xgi.circular_layout(H, center=o["center"], radius=o["radius"]),
@@ -182,6 +185,8 @@ def run_case(case, ctx):
                 ekw["edge_fc"] = {e: float(i) for i, e in enumerate(poly_ids)}
             if not dy_ids:
                 ekw = {k: v for k, v in ekw.items() if not k.startswith("dyad")}
+        elif style == "const-array":  # per-node values that happen to be all equal (a regular network, a constant dict)
+            nkw = {"node_size": {n: 9 for n in nodes}, "node_lw": [2.0] * len(nodes)}
         elif style == "stat":
             nkw = {"node_fc": H.nodes.degree, "node_size": H.nodes.degree}
             ekw = {"edge_fc": H.edges.size} if not sc else {}
@@ -216,6 +221,12 @@ def run_case(case, ctx):
             ax, (dc, ec) = xgi.draw_simplices(H, pos=pos, ax=ax, max_order=mo, **{k: v for k, v in ekw.items() if k not in ("aspect", "hull") and (k != "edge_fc" or not isinstance(v, dict))})
         ctx.event("drew:" + fn + ":" + style)
         if nc is not None:
+            # a marker that matplotlib masks out, or whose size / line width is not a finite number, is not rendered (size 0 is what a caller may ask for)
+            offm = nc.get_offsets()
+            masked = bool(np.ma.is_masked(offm)) and bool(np.ma.getmaskarray(offm).any())
+            sizes, lws = np.asarray(nc.get_sizes(), float), np.asarray(nc.get_linewidths(), float)
+            ctx.check(not masked and np.all(np.isfinite(sizes)) and np.all(sizes >= 0) and np.all(np.isfinite(lws)), ("draw", fn, "node-markers-not-rendered"),
+                      lambda: "masked %s sizes %r linewidths %r" % (masked, sizes.tolist(), lws.tolist()))
             off = np.asarray(nc.get_offsets(), float)
             want = np.asarray([pos[v] for v in nodes], float)
             ctx.check(off.shape == want.shape and np.allclose(off, want), ("draw", fn, "node-markers"), lambda: "offsets %r expected %r" % (off.tolist(), want.tolist()))
